@@ -41,10 +41,21 @@ def gen_one(rng):
             if kind == "named":
                 text += "connection c%d\n" % rng.randint(0, 2); line += 1
             if kind == "skipped":
-                text += "onlyif nosuchlabel\n"; line += 1
+                # one guard, or several stacked guards of which only a LATER one decides (labels of the run: beta, gamma)
+                g = rng.choice(["onlyif nosuchlabel\n", "skipif alpha\nskipif beta\n", "onlyif beta\nonlyif gamma\nskipif gamma\n",
+                                "skipif alpha\nonlyif beta\nonlyif alpha\n", "onlyif gamma\nskipif nosuch\nskipif beta\n"])
+                text += g; line += g.count("\n")
                 feats.add("skip")
+            elif kind == "statement" and rng.random() < 0.3:
+                # stacked guards none of which skips: the record must run
+                g = rng.choice(["skipif alpha\nonlyif beta\n", "onlyif gamma\nonlyif beta\nskipif delta\n", "skipif alpha\nskipif delta\n"])
+                text += g; line += g.count("\n")
+                feats.add("guards-admit")
             here = line
-            sql = "stmt %d\n  second line %d" % (i, i) if rng.random() < 0.3 else "stmt %d" % i
+            r = rng.random()
+            sql = ("stmt %d\n  second line %d" % (i, i) if r < 0.2 else
+                   "stmt %d  \n  'second \t\n third' %d" % (i, i) if r < 0.35 else     # blanks at the end of SQL lines are part of the text
+                   "stmt %d" % i)
             text += "statement ok%s\n%s\n\n" % (clause, sql); line += 3 + sql.count("\n")
             if not stopped and kind != "skipped":
                 if fails:
@@ -100,7 +111,7 @@ def gen_one(rng):
             text += "\n"; line += 1
     mode = rng.choice(["multi", "script"])
     return runfam.impl_case(text, answers=answers, sys=sysa, default_answer=["err", "unexpected call"],
-                            sys_default=["exit", 9, "unexpected", ""], mode=mode, name="case.slt",
+                            sys_default=["exit", 9, "unexpected", ""], mode=mode, name="case.slt", labels=["beta", "gamma"],
                             meta={"exp_calls": exp_calls, "exp_final": exp_final, "feats": sorted(feats), "n": n})
 
 
